@@ -231,7 +231,16 @@ def run(prog, rep):
             rep.violation('R2', loc(gml.module, st), 'GraphML.networkx_to_neo4j', norm(st), f'{kind}s must be marked with the {attr!r} attribute')
         # the set is only skipped when the attribute is already present
         gens_, conds = _enclosing(st, l)
-        bad = [c for c in conds for cj in conjuncts(canon(c)) if not only_if_absent(cj, l.target.id, st.args[0].value)]
+        def has_class_data(cj, loop):
+            """`<d> is not None` where <d> is the element's Class <data> child (`<element>.find(...)`): an element without a Class
+            property has nothing to copy - every element of a model the library holds has one (C07), so no such element is skipped"""
+            if not (isinstance(cj, ast.Compare) and len(cj.ops) == 1 and isinstance(cj.ops[0], ast.IsNot) and isinstance(cj.left, ast.Name) and
+                    isinstance(cj.comparators[0], ast.Constant) and cj.comparators[0].value is None):
+                return False
+            defs = [a.value for a in ast.walk(loop) if isinstance(a, ast.Assign) and any(isinstance(t, ast.Name) and t.id == cj.left.id for t in a.targets)]
+            used = any(isinstance(x, ast.Name) and x.id == cj.left.id for x in ast.walk(st))
+            return bool(defs) and used and all(isinstance(d, ast.Call) and call_name(d) == 'find' and receiver_name(d) == loop.target.id for d in defs)
+        bad = [c for c in conds for cj in conjuncts(canon(c)) if not only_if_absent(cj, l.target.id, st.args[0].value) and not has_class_data(cj, l)]
         if bad:
             rep.violation('R2', loc(gml.module, st), 'GraphML.networkx_to_neo4j', f'{kind} markup conditional on {[norm(c, 60) for c in bad]}',
                           f'the {attr} attribute is only added under a condition other than "not already present"')
